@@ -33,6 +33,18 @@ class Filter(TypedDict):
 class FiltersSet:
     """A set of filters."""
 
+    # tests that can be negated using the "not" prefix (ex: notexists)
+    negatable_tests = (
+        "true",
+        "false",
+        "size",
+        "exists",
+        "envelope",
+        "address",
+        "body",
+        "currentdate",
+    )
+
     def __init__(
         self,
         name: str,
@@ -227,7 +239,11 @@ class FiltersSet:
         ifcontrol = commands.get_command_instance("if")
         mtypeobj = commands.get_command_instance(matchtype, ifcontrol)
         for c in conditions:
-            if not isinstance(c[0], list) and c[0].startswith("not"):
+            if (
+                not isinstance(c[0], list)
+                and c[0].startswith("not")
+                and c[0][3:] in self.negatable_tests
+            ):
                 negate = True
                 cname = c[0].replace("not", "", 1)
             else:
